@@ -8,8 +8,12 @@ import path from 'node:path';
 
 const HERE = path.dirname(fileURLToPath(import.meta.url));
 let artifactDirs = [];
+// eagerComponents (runtime.mjs only; `dump` leaves it off): load `@component` readers as
+// eager readers so that the real readData recurses into them.
+let eagerComponents = false;
 export async function initialize(data) {
   artifactDirs = (data && data.artifactDirs) || [];
+  eagerComponents = !!(data && data.eagerComponents);
 }
 
 const PKG = {
@@ -100,6 +104,9 @@ export function transformTs(source, filePath) {
       for (const n of c.named) decls.push(`${n.local} = ${mk(n.imported)}`);
       return decls.length ? `const ${decls.join(', ')};` : '';
     });
+  }
+  if (isArtifact && eagerComponents && /resolver_reader\.ts$/.test(filePath)) {
+    src = src.replace(/kind: "ComponentReaderArtifact"/g, 'kind: "EagerReaderArtifact"');
   }
   // (b) the TypeScript syntax oracle
   let js = stripTypeScriptTypes(src, { mode: 'transform' });
